@@ -292,7 +292,7 @@ func runC16(r *vk.Run) {
 	// malformed values must be rejected, not replaced by a default
 	r.Phase("malformed", 1, func(c *vk.Case) {
 		now := time.Unix(1700000000, 0)
-		badTimes := []string{"now", "abc", "12:30", "2024-13-01T00:00:00Z", "2024-01-01", "2024-01-01 00:00:00", "1e9", "1700000000.5.5", ".", "Inf", "0x10", "17000000000000000000000", "yesterday", "1700000000s", " 1700000000", "1700000000 "}
+		badTimes := []string{"now", "9999999999999999999", "9223372036854775808", "18446744073709551615", "abc", "12:30", "2024-13-01T00:00:00Z", "2024-01-01", "2024-01-01 00:00:00", "1e9", "1700000000.5.5", ".", "Inf", "0x10", "17000000000000000000000", "yesterday", "1700000000s", " 1700000000", "1700000000 "}
 		for _, b := range badTimes {
 			if _, _, err := Cmd.TimeRange(now, sp(b), nil, nil); err == nil {
 				c.Fail("", fmt.Sprintf("malformed --start %q accepted", b), map[string]any{"flag": "start", "value": b})
